@@ -63,6 +63,13 @@ func rprop_dense_with_gradient(evalGradient DenseGradientF, x0 DenseFloat64Vecto
   if constraints.Value != nil && !constraints.Value(x1) {
     return x1, fmt.Errorf("invalid initial value: %v", x1)
   }
+  // compute partial derivatives at the initial value
+  if err := evalGradient(x1, gradient_new); err != nil {
+    return x1, err
+  }
+  if gradient_is_nan(gradient_new) {
+    return x1, fmt.Errorf("gradient is NaN for initial value: %v", x1)
+  }
   for i := 0; i < maxIterations.Value; i++ {
     for i := 0; i < x1.Dim(); i++ {
       gradient_old[i] = gradient_new[i]
